@@ -56,6 +56,12 @@ Theorem exec_helper_bodies_as_modelled : helper_shapes = pinned_shapes.
 Proof. exact helper_bodies_as_modelled. Qed.
 Print Assumptions exec_helper_bodies_as_modelled.
 
+(* the op-code under which the model looks a function call up in the tables is the one
+   XPathProcessorImpl assigns (s_functionTable, FunctionCall(), replaceOpCode: regenerated) *)
+Theorem exec_fn_opcode_follows_compiler : forall name args, fn_opcode name args = compiler_fn_opcode name args.
+Proof. exact fn_opcode_follows_compiler_lemma. Qed.
+Print Assumptions exec_fn_opcode_follows_compiler.
+
 (** * one value: all expressions, all contexts, all recursion depths, six entry points at once *)
 
 (* vars_ordered c (XpModel): the node-set variables bound in the context are in document order
